@@ -1882,6 +1882,10 @@ class C18(Check):
                 ocp2 = rockit.Ocp.load(fname)
             except Exception as ex:
                 return "Ocp.load raised (%s): %s: %s" % (position, type(ex).__name__, str(ex)[:200].replace("\n", " "))
+        # the loaded OCP is compared with the reference transcribed afresh, as the loaded one is (save itself untranscribes the original):
+        # what an already transcribed object does NOT refresh when values change is the business of C09/C10/C13, not of save/load
+        with B.quiet():
+            ref._untranscribe()
         # the loaded object must be usable through its own accessors like the original: the same calls on it and on the reference
         try:
             with B.quiet():
